@@ -195,6 +195,40 @@ def multi_segment_boundary_items(rnd, caps, pairs, prefixes=(1, 2, 3, 5, 7, 11),
     return out
 
 
+def double_crossing_cases(rnd, caps):
+    """many-segment streams that need TWO re-fits: with the count fields of versions 1-9 the stream fits version <= 26, with
+    those of 10-26 it needs 27, and with those of 27-40 it no longer fits 27 (or just does): alternating one-byte and numeric
+    segments (a byte segment grows 8 bits from the first class to the second and 0 to the third, a numeric one 2 and 2)."""
+    out = []
+    for l in range(4):
+        D26, D27 = data_bits(caps, 26, l), data_bits(caps, 27, l)
+        nb = (D27 - D26) // 8 + 3
+        nn = nb
+        for d_target in (0, 1, 2, nn, 2 * nn - 2, 2 * nn, 2 * nn + 3):       # D27 - (bits with the middle widths); < 2*nn: needs 28
+            lens = [3] * nn
+            def bits(v):
+                return nb * seg_bits(MODE_BYTE, 1, v) + sum(seg_bits(MODE_NUM, k, v) for k in lens)
+            i = 0
+            while bits(20) + 4 <= D27 - d_target and i < 200000:       # grow the numeric segments round-robin
+                lens[i % nn] += 1; i += 1
+            for j in range(nn):                                           # fine-tune with single digits (+4 / +3 bits)
+                lens[j] += 1
+                if bits(20) > D27 - d_target:
+                    lens[j] -= 1
+            b1, b2, b3 = bits(5), bits(20), bits(30)
+            if not (b1 <= D26 < b2 <= D27):
+                continue
+            calls = []
+            for k in lens:
+                calls.append((bytes([rnd.choice(b"abcxyz#!?")]), 0))
+                calls.append((rbytes(rnd, DIG, k), 0))
+            calls = calls[:2 * nb]
+            for (start, fit) in ((None, True), (None, False), (1, True), (9, True), (26, True), (27, False)):
+                out.append(dict(version=start, level=l, mask=rnd.randrange(8), fit=fit, calls=list(calls),
+                                tag="double-crossing" + ("-28" if b3 > D27 else "-27")))
+    return out
+
+
 AWKWARD_TAILS = [b"\n", b"\r\n", b"\r", b" ", b"\t", b"\0", b"\x0b", b"\x0c", b"\x1c", b"\x1f", b"\x85", b"\xa0", b"_", b"+", b"-", b".", b",",
                  b"\xd9\xa3", b"\xef\xbc\x91", b"e5", b"0x", b"\n\n"]
 
